@@ -60,10 +60,21 @@ def compress (s : St) (blk : Array UInt32) : St := Id.run do
 
 def init : St := ⟨0x6a09e667,0xbb67ae85,0x3c6ef372,0xa54ff53a,0x510e527f,0x9b05688c,0x1f83d9ab,0x5be0cd19⟩
 
-def blocks (ws : List UInt32) (s : St) : St :=
-  if _h : ws.length < 16 then s else blocks (ws.drop 16) (compress s (ws.take 16).toArray)
-termination_by ws.length
-decreasing_by simp only [List.length_drop]; omega
+/-- the next 16 words, if there are that many (no length is measured: a multi-megabyte block is hashed in one pass) -/
+def split16 : List UInt32 → Option (Array UInt32 × List UInt32)
+  | a0 :: a1 :: a2 :: a3 :: a4 :: a5 :: a6 :: a7 :: a8 :: a9 :: a10 :: a11 :: a12 :: a13 :: a14 :: a15 :: rest =>
+    some (#[a0, a1, a2, a3, a4, a5, a6, a7, a8, a9, a10, a11, a12, a13, a14, a15], rest)
+  | _ => none
+
+def blocksFuel : Nat → List UInt32 → St → St
+  | 0, _, s => s
+  | n + 1, ws, s =>
+    match split16 ws with
+    | some (blk, rest) => blocksFuel n rest (compress s blk)
+    | none => s
+
+/-- compress every complete 16-word chunk in order -/
+def blocks (ws : List UInt32) (s : St) : St := blocksFuel (ws.length / 16 + 1) ws s
 
 def out32 (x : UInt32) : List UInt8 :=
   [(x >>> 24).toUInt8, (x >>> 16).toUInt8, (x >>> 8).toUInt8, x.toUInt8]
